@@ -5,6 +5,7 @@ import (
 	"go/ast"
 	"go/token"
 	"go/types"
+	"strings"
 
 	"sopverif/eng"
 )
@@ -327,9 +328,42 @@ func runC04R1(c *eng.Ctx, r *eng.RuleCtx) {
 	// (d) who can cut the wait short
 	cancelDelay := p.Field(pkgQueue, "TaskQueue", "cancelDelay")
 	cancelFn := p.Method(pkgQueue, "TaskQueue", "CancelTaskDelay")
-	if cancelDelay == nil || cancelFn == nil {
-		r.Unknown("anchor:cancelDelay", token.NoPos, "field/method not found")
+	if cancelFn == nil {
+		r.Unknown("anchor:CancelTaskDelay", token.NoPos, "method not found")
 		return
+	}
+	if cancelDelay == nil {
+		// the request flag has another representation (an enumeration of wait states, say): every field of the queue
+		// that the wait loop itself writes is its state - outside of it only CancelTaskDelay (and constructors) may write it
+		n := 0
+		if tq := p.Named(pkgQueue, "TaskQueue"); tq != nil {
+			if st, isS := tq.Underlying().(*types.Struct); isS {
+				for i := 0; i < st.NumFields(); i++ {
+					fld := st.Field(i)
+					owned := false
+					for _, ref := range p.Refs(fld) {
+						if ref.Write && ref.In == w {
+							owned = true
+						}
+					}
+					if !owned {
+						continue
+					}
+					for _, ref := range p.Refs(fld) {
+						if !ref.Write || ref.In == w {
+							continue
+						}
+						n++
+						ok := ref.In == nil || ref.In.Obj == cancelFn || (ref.In.Obj != nil && ref.In.Decl.Recv == nil && strings.HasPrefix(ref.In.Obj.Name(), "New"))
+						r.Check(ok, "wait state "+fld.Name()+" written in "+ref.Where(), ref.Node.Pos(), "only CancelTaskDelay requests an early wake-up", "the wait of a queue (including the back-off after a failure) is cut short from outside CancelTaskDelay")
+					}
+				}
+			}
+		}
+		if n == 0 {
+			r.Unknown("anchor:cancelDelay", token.NoPos, "no field through which CancelTaskDelay reaches the wait loop was found")
+			return
+		}
 	}
 	for _, ref := range p.Refs(cancelDelay) {
 		if !ref.Write {
